@@ -2,7 +2,7 @@
 //! replay files, evidence files.
 use super::core::*;
 use super::minimize;
-use super::scenario::Scenario;
+use super::scenario::{ClientOp, Scenario};
 use serde_json::{json, Value};
 use std::collections::{BTreeMap, HashSet};
 use std::path::{Path, PathBuf};
@@ -166,6 +166,24 @@ pub struct Findings {
 }
 
 /// Judges a scenario: in this process, or - in isolated mode - in a process of its own.
+/// Seconds a single simulated step (or in-process analysis) may take before the watchdog calls
+/// it non-terminating: 60 s, plus an allowance for what is legitimately slow - this code base
+/// renders every diagnostic by walking the text from its start, so one publication costs
+/// (number of errors) x (length of the text), quadratic in the size of a document.
+pub fn watchdog_secs(sc: &Scenario) -> u64 {
+    let mut biggest = 0usize;
+    let mut added = 0usize;
+    for st in &sc.script {
+        match &st.op {
+            ClientOp::Open { text, .. } => biggest = biggest.max(text.len()),
+            ClientOp::Change { edits, .. } => added += edits.iter().map(|e| e.text.len()).sum::<usize>(),
+            _ => {}
+        }
+    }
+    let kib = ((biggest + added) / 1024) as u64;
+    60 + kib * kib * 4 / 1000
+}
+
 pub fn judge(def: &PropDef, sc: &Scenario) -> Judgement {
     if super::core::ISOLATED.load(Ordering::Relaxed) && std::env::var("VERIF_IN_CHILD").is_err() {
         judge_in_child(def.id, sc)
@@ -350,9 +368,9 @@ pub fn replay(def: &PropDef, path: &Path, quiet: bool) -> Vec<Violation> {
                     if b != last.0 {
                         last = (b, Instant::now());
                     }
-                    if last.1.elapsed().as_secs() >= 60 {
+                    if last.1.elapsed().as_secs() >= watchdog_secs(&sc) {
                         println!("replay {}: {}", path.display(), sc.summary());
-                        println!("WATCHDOG: one simulated step has been running for 60 s (non-terminating computation inside the server)");
+                        println!("WATCHDOG: one simulated step has been running for {} s (non-terminating computation inside the server)", watchdog_secs(&sc));
                         println!("REPLAY-VIOLATION property=C02 clause=hang signature=hang watchdog :: a computation inside the server does not terminate");
                         if def.id == "C02" {
                             println!("VIOLATION property=C02 replay={}", path.display());
@@ -568,13 +586,14 @@ pub fn run_check(def: &PropDef, tier: Tier, seed: u64, max_items: Option<u64>) -
                         *last_beat = beat;
                         *last_change = Instant::now().max(*since);
                     }
-                    if last_change.elapsed().as_secs() >= 60 {
+                    if last_change.elapsed().as_secs() >= watchdog_secs(sc) {
                         let dir = verif_root().join("replays");
                         let _ = std::fs::create_dir_all(&dir);
                         let p = dir.join(format!("{}-hang-{}.json", sc.property, sc.seed));
                         let _ = std::fs::write(&p, serde_json::to_string_pretty(sc).unwrap());
                         println!(
-                            "WATCHDOG: one simulated step has been running for 60 s (non-terminating computation inside the server); scenario written to {}",
+                            "WATCHDOG: one simulated step has been running for {} s (non-terminating computation inside the server); scenario written to {}",
+                            watchdog_secs(sc),
                             p.display()
                         );
                         if sc.property == "C02" {
